@@ -19,6 +19,7 @@ func VerifC20_Generate() {
 	now := vrtCmdInstant(h, "now")
 	vrtCmdAssumeClock(h, now)
 	vrt.SetClock(uint32(now))
+	vrt.ClockDrift(3) // later readings of the wall clock may be up to 3 s later each
 	randMax := []int{0, 1, 3}[vrt.Choose("randMax", 3)]
 	fill := vrt.Choose("fill", 2) == 1
 	dest := vrt.NoFile("gen/new.wsp")
